@@ -196,13 +196,15 @@ impl<R> JoinHandle<R> {
         let timeout_time = open_coroutine_core::common::get_timeout_time(dur);
         loop {
             for handle in slice {
+                // every handle is asked at least once, also when no time is left: a task that
+                // has already finished is reported even with a zero or expired duration
                 let left_time = timeout_time.saturating_sub(open_coroutine_core::common::now());
-                if 0 == left_time {
-                    return Err(Error::other("timeout join failed"));
-                }
                 if let Ok(x) = handle.timeout_join(Duration::from_nanos(left_time).min(SLICE)) {
                     return Ok(x);
                 }
+            }
+            if 0 == timeout_time.saturating_sub(open_coroutine_core::common::now()) {
+                return Err(Error::other("timeout join failed"));
             }
         }
     }
